@@ -200,6 +200,18 @@ example : WFReq exClientReq.msg := by decide
 example : (match relayRequest exClientReq with | some x => decide (WFReq x.msg) && (x.msg.url == strBytes "/p/./q?x=1&x=2") | none => false) = true := by
   decide
 
+/-- The usual bodiless GET: the proxy forwards it without any framing field. -/
+def exClientGet : Parsed :=
+  ⟨{ isReq := true, method := strBytes "GET", url := strBytes "http://h.example", major := 1, minor := 0,
+     code := 0, status := [], host := strBytes "h.example", te := [], cl := 0,
+     hdr := [(strBytes "Accept", strBytes "*/*"), (strBytes "User-Agent", strBytes "curl/8")],
+     body := some [], trailer := none }, true, none⟩
+
+example : (match relayRequest exClientGet with
+    | some x => decide (WFReq x.msg) && (x.msg.url == strBytes "/") && (x.msg.cl == -1) &&
+        (vals x.msg.hdr connKey == [closeTok]) && (x.msg.minor == 1)
+    | none => false) = true := by decide
+
 def exOriginRes : Parsed :=
   ⟨{ isReq := false, method := [], url := [], major := 1, minor := 1, code := 200, status := strBytes "200 OK",
      host := [], te := [chunkedTok], cl := -1,
